@@ -13,15 +13,15 @@ ROOT = os.path.dirname(os.path.dirname(os.path.abspath(__file__)))
 
 # property -> list of stages; each stage = (family, focus, runs_quick, runs_thorough, params)
 CHECKS = {
-    "C01": {"level": "exploration", "stages": [("e1", "C01", 40000, 1500000, {}), ("e2", "C01", 4000, 150000, {})]},
-    "C02": {"level": "exploration", "stages": [("e1", "C02", 40000, 1500000, {}), ("e2", "C02", 4000, 150000, {})]},
-    "C03": {"level": "exploration", "stages": [("e1", "C03", 40000, 1500000, {}), ("e2", "C03", 4000, 150000, {})]},
+    "C01": {"level": "exploration", "stages": [("e1", "C01", 120000, 3000000, {}), ("e2", "C01", 4000, 150000, {})]},
+    "C02": {"level": "exploration", "stages": [("e1", "C02", 80000, 2500000, {}), ("e2", "C02", 4000, 150000, {})]},
+    "C03": {"level": "exploration", "stages": [("e1", "C03", 60000, 2000000, {}), ("e2", "C03", 4000, 150000, {})]},
     "C04": {"level": "exploration", "stages": [("e1", "C04", 40000, 1500000, {})]},
     "C07": {"level": "exploration", "stages": [("e1", "C07", 60000, 1500000, {}), ("e3", "C07", 20000, 600000, {})]},
-    "C08": {"level": "exploration", "stages": [("e1", "C08", 30000, 1000000, {})]},
+    "C08": {"level": "exploration", "stages": [("e1", "C08", 50000, 1500000, {})]},
     "C09": {"level": "exploration", "stages": [("e3", "C09", 40000, 1500000, {}), ("e1", "C09", 20000, 600000, {})]},
     "C10": {"level": "exploration", "stages": [("e1", "C10", 20000, 700000, {})]},
-    "C13": {"level": "exploration", "stages": [("e1c13", "C13", 20000, 700000, {})]},
+    "C13": {"level": "exploration", "stages": [("e1c13", "C13", 20000, 700000, {}), ("e6", "C13", 0, 0, {"runs_factor": 1})]},
     "C15": {"level": "exploration", "stages": [("e4", "C15", 0, 0, {})]},
     "C16": {"level": "exploration", "stages": [("e1", "C16", 30000, 1000000, {}), ("e3", "C16", 20000, 600000, {})]},
     "C17": {"level": "exploration", "stages": [("e1", "C17", 30000, 1000000, {}), ("e2", "C17", 4000, 150000, {})]},
@@ -174,6 +174,11 @@ def main(argv=None):
         return 0
     if args.survey:
         return survey(prop, args, seed, kparams)
+    def _matcher(p_, v_, res_):
+        kf_ = match_known(known, p_, v_, res_)
+        return None if kf_ is None else kf_["id"]
+
+    runner.KNOWN_MATCHER = _matcher
     t0 = time.time()
     spec = CHECKS[prop]
     tier = args.tier
@@ -203,6 +208,8 @@ def main(argv=None):
         runs = args.runs if args.runs else (rq if tier == "quick" else rt)
         if not runs:
             runs = fmod.n_runs(tier)
+            if params.get("runs_factor"):
+                runs = len(fmod.points(tier)) * params["runs_factor"] * (1 if tier == "quick" else 4)
         if hasattr(fmod, "prepare"):
             fmod.prepare(params)
         st0 = time.time()
@@ -210,6 +217,11 @@ def main(argv=None):
         tot["family"] = fam
         tot["wall"] = time.time() - st0
         totals.append(tot)
+        for kid, cnt in sorted(tot.get("known", {}).items()):
+            kf = next(f for f in known["findings"] if f["id"] == kid)
+            line = f"KNOWN-FINDING: property={prop} {kf['id']}: {kf['what_fails']}"
+            if line not in known_lines:
+                known_lines.append(line)
         reported = set()
         for bad in tot["viol"]:
             # violations that match a recorded finding are reported as such (no minimisation needed)
